@@ -4,7 +4,10 @@ use std::sync::atomic::Ordering;
 
 use anyhow::Context;
 use cfg_if::cfg_if;
+#[cfg(not(aquatic_verif))]
 use mio::net::UdpSocket;
+#[cfg(aquatic_verif)]
+use aquatic_verif_rt::net::udp::UdpSocket;
 use socket2::{Domain, Protocol, Type};
 
 use aquatic_common::{privileges::PrivilegeDropper, CanonicalSocketAddr};
@@ -44,6 +47,10 @@ pub struct Socket<V> {
 
 impl Socket<Ipv4> {
     pub fn create(config: &Config, priv_dropper: PrivilegeDropper) -> anyhow::Result<Self> {
+        #[cfg(aquatic_verif)]
+        {
+            return Self::verif_create(config, priv_dropper, config.network.address_ipv4.into());
+        }
         let socket = socket2::Socket::new(Domain::IPV4, Type::DGRAM, Some(Protocol::UDP))?;
 
         cfg_if!(
@@ -102,6 +109,10 @@ impl Socket<Ipv4> {
 
 impl Socket<Ipv6> {
     pub fn create(config: &Config, priv_dropper: PrivilegeDropper) -> anyhow::Result<Self> {
+        #[cfg(aquatic_verif)]
+        {
+            return Self::verif_create(config, priv_dropper, config.network.address_ipv6.into());
+        }
         let socket = socket2::Socket::new(Domain::IPV6, Type::DGRAM, Some(Protocol::UDP))?;
 
         if config.network.set_only_ipv6 {
@@ -164,6 +175,31 @@ impl Socket<Ipv6> {
 }
 
 impl<V: IpVersion> Socket<V> {
+    /// Simulated twin of `create`: bind through the socket seam (no kernel socket)
+    #[cfg(aquatic_verif)]
+    fn verif_create(
+        config: &Config,
+        priv_dropper: PrivilegeDropper,
+        address: ::std::net::SocketAddr,
+    ) -> anyhow::Result<Self> {
+        let socket = UdpSocket::sim_bind(!V::is_v4(), config.network.set_only_ipv6, address)
+            .with_context(|| format!("socket: bind to {}", address))?;
+
+        priv_dropper.after_socket_creation()?;
+
+        let mut s = Self {
+            socket,
+            opt_resend_buffer: None,
+            phantom_data: Default::default(),
+        };
+
+        if config.network.resend_buffer_max_len > 0 {
+            s.opt_resend_buffer = Some(Vec::new());
+        }
+
+        Ok(s)
+    }
+
     pub fn read_and_handle_requests(&mut self, shared: &mut WorkerSharedData) {
         let max_scrape_torrents = shared.config.protocol.max_scrape_torrents;
 
